@@ -180,6 +180,7 @@ type incarnation struct {
 	mtx    *common.Mutex
 	fsMtx  []*common.Mutex // fast-sync client and server mutexes (registered once Start created them)
 	fsReg  bool
+	genesisRT bool // C08: genesis block round trip checked for this incarnation
 	started atomic.Bool
 	startErr error
 	termed bool
